@@ -419,11 +419,7 @@ partial def tokJ : Peg.Tok → String
   | .leaf s => jstr (String.ofList s)
   | .group ts => "[" ++ ",".intercalate (ts.map tokJ) ++ "]"
 
-def pegSkip (ws : Nat) (x : List Char) : List Char :=
-  match ws with
-  | 0 => x
-  | 1 => x.dropWhile Skip.isWhite
-  | _ => Skip.skip x
+def pegSkip (ws : Nat) (x : List Char) : List Char := Peg.engines ws x
 
 def handlePeg (req : Json) : Except String String := do
   let rulesJ ← req.getObjVal? "rules"
